@@ -19,7 +19,8 @@ EntriesFor(AA) ==
   \cup { E("fix", 1, "OK", "INVALID"), E("notype", 0, "OK", "F1") }
 SmallEntriesFor(AA) ==
   { E("bps", v, "OK", "F1") : v \in {1, 5000, 10000, 0, 10001} } \cup { E("bps", 3333, "OK", "F2") }
-  \cup { E("fix", v, "OK", "F2") : v \in {1, AA - 1, AA, 0} } \cup { E("fix", 5, "NEG", "F1"), E("bps", 100, "OK", "INVALID") }
+  \cup { E("fix", v, "OK", "F2") : v \in {1, AA - 1, AA, 0} } \cup { E("fix", 5, "NEG", "F1"), E("bps", 100, "OK", "INVALID"),
+                                                                     E("fix", 5, "BIG256", "F1") }
 
 \* Amounts is sharded by the driver (one TLC process per amount): full = {1, 2, 3, 9999, 10000,
 \* 10001, 19999, 20000, 199999}
